@@ -655,6 +655,7 @@ func main() {
 	if only == "" {
 		andxIsolation(structs)
 		andxRoundTrip(structs)
+		entryLists(structs)
 	}
 	heldDecoded.final()
 	sort.Strings(names)
